@@ -15,6 +15,7 @@ import (
 	"hash/fnv"
 	"sort"
 	"sync"
+	"sync/atomic"
 	"time"
 
 	ocommon "github.com/ontio/ontology/common"
@@ -576,7 +577,12 @@ type concCfg struct {
 // readers through the table's own locked accessors on properties that hold for any
 // linearisation (distinct, sorted, <= k, known ids), (b) at quiescence: structural
 // invariant, callback log replay, per-owner models when ownership is disjoint.
+var hung atomic.Bool
+
 func runConcurrent(r *vf.Run, rng *vf.RNG, idx int) {
+	if hung.Load() {
+		return
+	}
 	var local raw
 	copy(local[:], rng.Bytes(20))
 	bs := []int{1, 2, 20, 3}[idx%4]
@@ -628,10 +634,21 @@ func runConcurrent(r *vf.Run, rng *vf.RNG, idx int) {
 	const W, R = 4, 2
 	type wres struct {
 		model map[common.PeerId]bool
-		v     *viol
 	}
 	wr := make([]wres, W)
-	rv := make([]*viol, R)
+	// first violation seen by any goroutine; a caught panic may leave the table's lock held
+	// (NearestPeers unlocks without defer), so the history is then abandoned instead of joined
+	var vmu sync.Mutex
+	var firstV *viol
+	abandon := make(chan struct{})
+	setViol := func(v *viol) {
+		vmu.Lock()
+		if firstV == nil {
+			firstV = v
+			close(abandon)
+		}
+		vmu.Unlock()
+	}
 	var wg sync.WaitGroup
 	stop := make(chan struct{})
 	for w := 0; w < W; w++ {
@@ -651,20 +668,20 @@ func runConcurrent(r *vf.Run, rng *vf.RNG, idx int) {
 				id := ids[k]
 				if sub.Chance(30) {
 					if p := vf.Catch(func() { rt.Remove(id) }); p != nil {
-						wr[w].v = &viol{key: "panic:Remove:concurrent", what: fmt.Sprint(p)}
+						setViol(&viol{key: "panic:Remove:concurrent", what: fmt.Sprint(p)})
 						return
 					}
 					delete(model, id)
 				} else {
 					var err error
 					if p := vf.Catch(func() { err = rt.Update(id, "a") }); p != nil {
-						wr[w].v = &viol{key: "panic:Update:concurrent", what: fmt.Sprint(p)}
+						setViol(&viol{key: "panic:Update:concurrent", what: fmt.Sprint(p)})
 						return
 					}
 					if err == nil {
 						model[id] = true
 					} else if disjoint && model[id] {
-						wr[w].v = &viol{key: "concurrent:refresh-rejected", what: "Update of a peer this writer owns and holds in the table was rejected"}
+						setViol(&viol{key: "concurrent:refresh-rejected", what: "Update of a peer this writer owns and holds in the table was rejected"})
 						return
 					}
 				}
@@ -712,15 +729,31 @@ func runConcurrent(r *vf.Run, rng *vf.RNG, idx int) {
 					v = &viol{key: "panic:reader:concurrent", what: fmt.Sprint(p)}
 				}
 				if v != nil {
-					rv[q] = v
+					setViol(v)
 					return
 				}
 			}
 		}(q)
 	}
-	wg.Wait()
-	close(stop)
-	rg.Wait()
+	joined := make(chan struct{})
+	var stopOnce sync.Once
+	go func() {
+		wg.Wait()
+		stopOnce.Do(func() { close(stop) })
+		rg.Wait()
+		close(joined)
+	}()
+	abandoned := false
+	select {
+	case <-joined:
+	case <-abandon:
+		stopOnce.Do(func() { close(stop) })
+		abandoned = true // goroutines of this history may stay blocked on a lock the panicking call never released
+	case <-time.After(10 * time.Minute): // never a verdict by itself
+		r.Inconclusive(fmt.Sprintf("concurrent history %d did not terminate within 10 min (bucketsize %d, seed %x): livelock in the table or starvation; remaining concurrent histories skipped", idx, bs, cfg.Seed))
+		hung.Store(true)
+		return
+	}
 	_ = cbTouch
 
 	// ---- quiescent point
@@ -730,17 +763,15 @@ func runConcurrent(r *vf.Run, rng *vf.RNG, idx int) {
 	fp := fmt.Sprintf("conc/bs%d/p%d/o%d/d%v/%x", bs, len(pool), cfg.OpsPerW, disjoint, cfg.Seed)
 	r.Eval(fp)
 	r.Count("concurrent_histories")
-	for _, x := range wr {
-		if x.v != nil {
-			report(x.v)
-			return
-		}
+	vmu.Lock()
+	fv := firstV
+	vmu.Unlock()
+	if fv != nil {
+		report(fv)
+		return
 	}
-	for _, v := range rv {
-		if v != nil {
-			report(v)
-			return
-		}
+	if abandoned {
+		return
 	}
 	// callback log replay: the callbacks run under the table's write lock, so their order is a linearisation
 	set := map[common.PeerId]bool{}
